@@ -24,4 +24,64 @@ def sepLine (sep : Option Bytes) (term : Bytes) : Bytes :=
 /-- Every block preceded by the separator line. -/
 def joinAfter (line : Bytes) (bs : List Bytes) : Bytes := (bs.map (fun b => line ++ b)).flatten
 
+/-! ### The block grammar of the path-tagged output modes
+
+In every mode but `--heading`, each output line carries the path of its file (`path:…`, `path-…`, the bare
+path, the `path.text` of a JSON message); the only untagged line is the context separator `--`, which
+occurs *inside* a file's results (between non-adjacent context groups) and *between* files.  This is the
+grammar the harness uses to cut an output into blocks; `parse` is that procedure. -/
+
+inductive Line where
+  | sep
+  | data (p : Nat) (x : Bytes)
+  deriving Repr, DecidableEq, Inhabited
+
+def Line.isData (p : Nat) : Line → Bool
+  | .data q _ => q == p
+  | .sep => false
+
+def Line.ofPathOrSep (p : Nat) : Line → Bool
+  | .data q _ => q == p
+  | .sep => true
+
+/-- A file's block: starts and ends with a line of that file, separators only in between. -/
+def wfBlock (p : Nat) (b : List Line) : Bool :=
+  match b with
+  | [] => false
+  | l :: _ => l.isData p && (match b.getLast? with | some e => e.isData p | none => false) && b.all (Line.ofPathOrSep p)
+
+/-- The output: blocks in order, `k` separator lines in every gap. -/
+def joinLines (k : Nat) : List (Nat × List Line) → List Line
+  | [] => []
+  | [(_, b)] => b
+  | (_, b) :: rest => b ++ List.replicate k Line.sep ++ joinLines k rest
+
+structure PS where
+  blocks : List (Nat × List Line) := []   -- most recent first
+  gaps : List Nat := []                    -- separator lines found in each gap, most recent first
+  pending : Nat := 0                       -- separator lines whose role is not yet known
+  stray : Nat := 0                         -- separator lines before the first block
+  deriving Repr, DecidableEq, Inhabited
+
+def pstep (st : PS) : Line → PS
+  | .sep => { st with pending := st.pending + 1 }
+  | .data p x =>
+    match st.blocks with
+    | (q, ls) :: rest =>
+      if q = p then
+        { st with blocks := (q, ls ++ List.replicate st.pending Line.sep ++ [.data p x]) :: rest, pending := 0 }
+      else
+        { st with blocks := (p, [.data p x]) :: st.blocks, gaps := st.pending :: st.gaps, pending := 0 }
+    | [] => { st with blocks := [(p, [.data p x])], stray := st.pending, pending := 0 }
+
+/-- blocks in output order, gaps in output order, stray separators before / after -/
+def parse (ls : List Line) : List (Nat × List Line) × List Nat × Nat × Nat :=
+  let st := ls.foldl pstep {}
+  (st.blocks.reverse, st.gaps.reverse, st.stray, st.pending)
+
+/-- consecutive blocks belong to different files -/
+def adjDistinct : List (Nat × List Line) → Bool
+  | (p, _) :: (q, b) :: rest => p != q && adjDistinct ((q, b) :: rest)
+  | _ => true
+
 end RgVerif.BlockSpec
